@@ -129,6 +129,12 @@ def main(argv=None):
         if res.get("fatal_inconclusive"):
             inconclusive.extend(res["inconclusive"][-1:])
 
+    if os.environ.get("VF_COVER"):
+        cov = set()
+        for res in results:
+            cov.update(tuple(x) for x in res.get("cover", ()))
+        json.dump(sorted(cov), open(os.environ["VF_COVER"], "w"))
+
     known = load_known(prop)
     known_mechs = {f["mechanism"]: f for f in known}
     new_violations = [v for v in violations if v["mechanism"] not in known_mechs]
